@@ -382,17 +382,39 @@ func runC37(c *Ctx) {
 		c.Check(okP, "interval-shape", key+":formula", fn.Pos(), "(1−f)^σ = exp(σ·ln(1−f)) with σ = poolStake/totalStake", "the power is not computed as exp((poolStake/totalStake)·ln(1−f))")
 	}
 	// (5) exact path
-	if fn := c.SSAFunc(rel, "exactOneMinusFPowerSigmaThreshold"); fn != nil {
-		key := ssaFuncKey(fn)
+	{
+		// the exact path may be its own function or folded into the caller: it is the one big.Int division whose
+		// operands are upper·Num(1 − p) and Denom(1 − p)
+		var fns []*ssa.Function
+		if o := c.FuncObjOpt(rel, "exactOneMinusFPowerSigmaThreshold"); o != nil {
+			fns = append(fns, c.SSAOf(o))
+		} else {
+			fns = c.pkgFuncs(rel)
+		}
 		ok := false
-		for _, ci := range allCalls(fn) {
-			if bigMethod(ci.Common()) == "Quo" {
-				t := trace(ci.Common().Args[1])
-				d := trace(ci.Common().Args[2])
-				ok = strings.HasPrefix(t, "Mul(") && strings.Contains(t, "p3,Num(Sub(") && strings.HasPrefix(d, "Denom(Sub(") && strings.Contains(d, "bigRatOne")
+		var where *ssa.Function
+		for _, fn := range fns {
+			for _, ci := range allCalls(fn) {
+				if bigMethod(ci.Common()) == "Quo" {
+					t := trace(ci.Common().Args[1])
+					d := trace(ci.Common().Args[2])
+					if strings.HasPrefix(t, "Mul(") && strings.Contains(t, ",Num(Sub(") && strings.HasPrefix(d, "Denom(Sub(") && strings.Contains(d, "bigRatOne") && strings.Contains(t, "bigRatOne") {
+						ok, where = true, fn
+					}
+				}
 			}
 		}
-		c.Check(ok, "exact-path", key, fn.Pos(), "threshold = ⌊upper·num/den⌋ of 1 − (1−f)^σ", "the exact path does not compute ⌊upperBound·Num/Denom⌋ of 1 − (1−f)^σ")
+		key := rel + ".exactOneMinusFPowerSigmaThreshold"
+		pos := token.NoPos
+		if where != nil {
+			pos = where.Pos()
+		} else if len(fns) == 1 {
+			key, pos = ssaFuncKey(fns[0]), fns[0].Pos()
+		}
+		if len(fns) == 1 {
+			key = ssaFuncKey(fns[0])
+		}
+		c.Check(ok, "exact-path", key, pos, "threshold = ⌊upper·num/den⌋ of 1 − (1−f)^σ", "the exact path does not compute ⌊upperBound·Num/Denom⌋ of 1 − (1−f)^σ")
 	}
 }
 
